@@ -609,6 +609,20 @@ def fam_mesh(rng, quick):
     names = ["Ada", "ada", "bob", "ACME", "Paris"]
     kinds = ["person", "organization", "location"]
     links = ["manager", "member", "employer", "related"]
+
+    def node(nm, kind, conf, frame, start):
+        return {"op": "mesh_node", "name": nm, "canon": nm.lower(), "kind": kind, "conf": conf, "frame": frame, "start": start, "len": 2}
+
+    # an update that only touches existing identities (same number of nodes and edges), committed on its own, then reopened
+    out.append([{"op": "create"}, {"op": "put", "uri": "mv2://m0", "pay": 1, "cls": "text", "size": 80, "ts": 1},
+                {"op": "put", "uri": "mv2://m1", "pay": 2, "cls": "text", "size": 80, "ts": 2}, {"op": "commit"},
+                node("Ada", "person", 50, 0, 3), node("ACME", "organization", 25, 0, 9),
+                {"op": "mesh_edge", "from": "Ada", "cfrom": "ada", "fkind": "person", "to": "ACME", "cto": "acme", "tkind": "organization", "link": "employer", "conf": 50, "frame": 0},
+                {"op": "commit"}, {"op": "mesh"}, {"op": "close"}, {"op": "open"}, {"op": "mesh"},
+                node("ada", "person", 100, 1, 5), {"op": "commit"}, {"op": "mesh"}, {"op": "close"}, {"op": "open"}, {"op": "mesh"},
+                node("ACME", "organization", 75, 1, 12),
+                {"op": "mesh_edge", "from": "Ada", "cfrom": "ada", "fkind": "person", "to": "ACME", "cto": "acme", "tkind": "organization", "link": "employer", "conf": 100, "frame": 1},
+                {"op": "close"}, {"op": "open_ro"}, {"op": "mesh"}, {"op": "close"}])
     for k in range(3 if quick else 40):
         ops = [{"op": "create"}, {"op": "put", "uri": "mv2://m0", "pay": 1, "cls": "text", "size": 80, "ts": 1}, {"op": "commit"}]
         start = 0
@@ -641,6 +655,36 @@ def fam_mesh(rng, quick):
                 ops.append({"op": "mesh"})
         ops += [{"op": "mesh"}, {"op": "close"}, {"op": "open_ro"}, {"op": "mesh"}, {"op": "cards"}, {"op": "close"}]
         out.append(ops)
+    return out
+
+
+def fam_legacy(rng, quick):
+    """C18: files that carry the legacy lock metadata of an older release in the reserved header bytes: read-only access must
+    leave them byte-identical too; a read-write open may clear them."""
+    out = []
+    for k in range(2 if quick else 8):
+        ops = [{"op": "create"}, {"op": "put", "uri": "mv2://l1", "pay": 1, "cls": "text", "size": 90, "ts": 1, "words": [1], "atoms": ["w1"]},
+               {"op": "put", "uri": "mv2://l2", "pay": 2, "cls": "bin", "size": 300, "ts": 2}, {"op": "commit"}]
+        if k % 2:
+            ops.append({"op": "put", "uri": "mv2://l3", "pay": 3, "cls": "text", "size": 50, "ts": 3})      # stays pending in the log
+            ops.append({"op": "abandon"})
+        else:
+            ops.append({"op": "close"})
+        ops += [{"op": "legacy_lock"}, {"op": "open_ro", "full": True}, {"op": "timeline"}, {"op": "search", "toks": ["w1"], "top_k": 5, "no_sketch": True},
+                {"op": "verify"}, {"op": "close"}, {"op": "open_ro"}, {"op": "close"}, {"op": "open"}, {"op": "close"}, {"op": "open_ro"}, {"op": "close"}]
+        out.append(ops)
+    return out
+
+
+def fam_bigfile(rng, quick):
+    """C18: a memory larger than the 16 MiB window the footer scan starts with (one multi-megabyte payload grows the log
+    region, too): read-only open, reads, verify and letting go of the handle must leave it byte-identical."""
+    out = []
+    for size in ([9_500_000] if quick else [9_500_000, 17_000_000]):
+        out.append([{"op": "create"}, {"op": "put", "uri": "mv2://big/t", "pay": 1, "cls": "text", "size": 300, "ts": 1, "words": [2], "atoms": ["w2"]},
+                    {"op": "put", "uri": "mv2://big/b", "pay": 2, "cls": "bin", "size": size, "ts": 2}, {"op": "commit"}, {"op": "close"},
+                    {"op": "open_ro", "full": True}, {"op": "timeline"}, {"op": "search", "toks": ["w2"], "top_k": 5, "no_sketch": True},
+                    {"op": "verify"}, {"op": "close"}, {"op": "open_ro"}, {"op": "close"}, {"op": "open"}, {"op": "close"}])
     return out
 
 
@@ -792,7 +836,7 @@ def fam_payload_sizes(rng, quick):
     return out
 
 
-EXTRA_FAMILIES += [fam_capacity_edges, fam_payload_sizes, fam_many_small, fam_tickets, fam_signed_tickets, fam_mesh, fam_known, fam_maintenance, fam_cards]
+EXTRA_FAMILIES += [fam_capacity_edges, fam_payload_sizes, fam_many_small, fam_tickets, fam_signed_tickets, fam_mesh, fam_legacy, fam_bigfile, fam_known, fam_maintenance, fam_cards]
 
 DEV_OWNER = {"D26_value_rewritten": "C26", "D01_commit_growth": "C01", "D08_update_chunked_empty": "C08", "D24_pending_ignored": "C24",
              "D24_payload_end_beyond_capacity": "C24"}
